@@ -21,6 +21,7 @@
 (* version byte.                                                           *)
 (***************************************************************************)
 EXTENDS Etf
+CONSTANT ReaderIgnoresSegment   \* weakening switch (FALSE = conforming reader): the cache is keyed by the internal index alone
 
 \* a reference: [seg |-> 0..7, idx |-> 0..255, new |-> BOOLEAN, atom |-> utf-8 bytes]
 Slot(r) == (r.seg * 256) + r.idx
@@ -62,7 +63,7 @@ ReadHeader(s, cache) ==
         IF ~st[1] THEN st ELSE
         LET nib == NibbleAt(s, flagsAt, i - 1)  p == st[4] IN
         IF ~Has(s, p, 1) THEN <<FALSE, cache, <<>>, 0>> ELSE
-        LET slot == ((nib % 8) * 256) + s[p] IN
+        LET slot == (IF ReaderIgnoresSegment THEN 0 ELSE (nib % 8) * 256) + s[p] IN
         IF nib >= 8
         THEN LET lenBytes == IF long THEN 2 ELSE 1 IN
              IF ~Has(s, p + 1, lenBytes) THEN <<FALSE, cache, <<>>, 0>> ELSE
@@ -92,36 +93,42 @@ CONSTANTS AtomsInPlay,     \* set of atoms (byte sequences)
 VARIABLES sCache,          \* sender's view of the cache: slot -> atom
           rCache,          \* receiver's cache
           sent,            \* number of messages so far
-          last             \* [bytes, terms, resolved, ok] of the last message
-hvars == <<sCache, rCache, sent, last>>
+          bad,             \* the receiver failed to resolve the last message to the sender's terms
+          last             \* [bytes, terms, resolved] of the last message (observation only; not in View)
+hvars == <<sCache, rCache, sent, bad, last>>
 RECURSIVE AtomsIn(_)
 AtomsIn(v) == IF v.k = "atom" THEN {v.b}
               ELSE IF IsContainer(v) THEN LET c == Children(v) IN UNION {AtomsIn(c[i]) : i \in 1..Len(c)} ELSE {}
 \* the sender caches every atom of the message that is in play (others travel inline)
 AtomsOf(terms) == (UNION {AtomsIn(terms[i]) : i \in 1..Len(terms)}) \cap AtomsInPlay
-SlotNum(sl) == (sl[1] * 256) + sl[2]
-HInit == /\ sCache = <<>> /\ rCache = <<>> /\ sent = 0 /\ last = [bytes |-> <<>>, terms |-> <<>>, resolved |-> <<>>, ok |-> TRUE]
-\* the sender chooses an ordered list of references covering the atoms of the message; each either
-\* names a slot that already holds that atom (new = FALSE) or (re)defines a slot (new = TRUE)
-RefChoices(atomSeq) == \* all assignments position -> reference for the given atom order
-  { rs \in [1..Len(atomSeq) -> [seg : {sl[1] : sl \in SlotsInPlay}, idx : {sl[2] : sl \in SlotsInPlay}, new : BOOLEAN, atom : AtomsInPlay]] :
-      /\ \A i \in 1..Len(atomSeq) : rs[i].atom = atomSeq[i] /\ <<rs[i].seg, rs[i].idx>> \in SlotsInPlay
-      /\ \A i \in 1..Len(atomSeq) : ~rs[i].new => (Slot(rs[i]) \in DOMAIN sCache /\ sCache[Slot(rs[i])] = atomSeq[i]
-                                                   /\ \A j \in 1..Len(atomSeq) : (rs[j].new /\ Slot(rs[j]) = Slot(rs[i])) => FALSE)
-      /\ \A i, j \in 1..Len(atomSeq) : (i # j /\ rs[i].new /\ rs[j].new) => Slot(rs[i]) # Slot(rs[j]) }
-Perms(S) == {f \in [1..Cardinality(S) -> S] : \A i, j \in 1..Cardinality(S) : i # j => f[i] # f[j]}
+HInit == /\ sCache = <<>> /\ rCache = <<>> /\ sent = 0 /\ bad = FALSE /\ last = [bytes |-> <<>>, terms |-> <<>>, resolved |-> <<>>]
+\* All reference lists a conforming sender may write for the atoms `as` (in this header order): each atom
+\* either names a slot that holds it already (new = FALSE) or (re)defines any slot not defined earlier in this header.
+RECURSIVE RefChoices(_, _, _)
+RefChoices(as, cache, taken) ==
+  IF as = <<>> THEN {<<>>} ELSE
+  LET a == Head(as)
+      reuse == { [seg |-> sl[1], idx |-> sl[2], new |-> FALSE, atom |-> a] :
+                   sl \in {x \in SlotsInPlay : ((x[1] * 256) + x[2]) \in DOMAIN cache /\ cache[(x[1] * 256) + x[2]] = a /\ x \notin taken} }
+      fresh == { [seg |-> sl[1], idx |-> sl[2], new |-> TRUE, atom |-> a] : sl \in SlotsInPlay \ taken }
+  IN UNION { { <<r>> \o rest : rest \in RefChoices(Tail(as), IF r.new THEN (Slot(r) :> a) @@ cache ELSE cache,
+                                                      IF r.new THEN taken \cup {<<r.seg, r.idx>>} ELSE taken) } : r \in reuse \cup fresh }
+\* header orders: ascending and descending by atom text (so that position /= slot occurs)
+Orders(S) == LET asc == SetToSortSeq(S, LAMBDA x, y : BytesLess(x, y)) IN {asc, Rev(asc)}
 ApplyRefs(cache, rs) == FoldLeft(LAMBDA c, i : IF rs[i].new THEN (Slot(rs[i]) :> rs[i].atom) @@ c ELSE c, cache, [i \in 1..Len(rs) |-> i])
 Send == /\ sent < MaxMsgs
-        /\ \E terms \in Messages : \E order \in Perms(AtomsOf(terms)) : \E rs \in RefChoices(order) :
+        /\ \E terms \in Messages : \E order \in Orders(AtomsOf(terms)) : \E rs \in RefChoices(order, sCache, {}) :
              LET bytes == MsgBytes(rs, terms)
                  rd == ReadMsg(bytes, rCache, Len(terms)) IN
              /\ sCache' = ApplyRefs(sCache, rs)
              /\ rCache' = rd[2]
-             /\ last' = [bytes |-> bytes, terms |-> terms, resolved |-> rd[3], ok |-> rd[1]]
+             /\ bad' = ~(rd[1] /\ rd[3] = terms)
+             /\ last' = [bytes |-> bytes, terms |-> terms, resolved |-> rd[3]]
              /\ sent' = sent + 1
 HNext == Send
 HSpec == HInit /\ [][HNext]_hvars
 \* C14 (design level): a conforming receiver resolves every message of every history to the sender's terms
-Resolved == last.ok /\ last.resolved = last.terms
+Resolved == ~bad
 CachesAgree == rCache = sCache
+HView == <<sCache, rCache, sent, bad>>
 =============================================================================
